@@ -27,7 +27,7 @@ EXPLANATION = (
     "NOT decided: everything value-level - exactness, idempotence, agreement of coerce/coerce_value/check."
 )
 LEVEL_RULE = "one obligation per try_coerce implementation / helper / schema-level site / coerce method / operator"
-FLOORS = {"R1": 4, "R2": 4, "R3": 4, "R4": 20, "R5": 1, "R6": 2, "R7": 2, "R8": 1}
+FLOORS = {"R1": 4, "R2": 4, "R3": 4, "R4": 20, "R5": 1, "R6": 2, "R7": 2, "R8": 1, "R9": 1}
 
 HELPERS = {"numpy_pandas_coerce_failure_cases", "polars_coerce_failure_cases", "polars_failure_cases_from_coercible"}
 ENGINE_MODS = ["pandera/engines/numpy_engine.py", "pandera/engines/pandas_engine.py", "pandera/engines/polars_engine.py",
@@ -381,6 +381,43 @@ def r7_identity_shortcut(ctx):
     ctx.stats["identity_returns"] = n
 
 
+def r9_polars_container_coverage(ctx):
+    """polars container coercion (`_coerce_dtype_helper`): a column schema is addressed through its selector, and the
+    `name` of a regex column is a pattern, not a frame column.  Coercion may therefore be skipped for an *optional*
+    column whose name is not in the frame, but it must stay reachable when the name is not a frame column (required /
+    regex columns) - otherwise pattern-selected columns are never coerced and coercible data is rejected."""
+    from ..cfg import cfg_of
+    from ..expand import expanded
+    from ..flow import FlowExpander
+    from ..util import enclosing_stmt, path_condition, show_condition
+    ix = ctx.ix
+    m = ix.module("pandera/backends/polars/container.py")
+    n = 0
+    for f0 in m.all_functions:
+        if f0.name != "_coerce_dtype_helper":
+            continue
+        f = expanded(ix, f0)
+        ctx.touched(f0)
+        fx = FlowExpander(f.node)
+        for c in calls_in(f.node):
+            # the per-column coercion call: getattr(col_schema.dtype, fn)(PolarsData(obj, col_schema.selector)) or <dtype>.try_coerce/coerce(...)
+            if not any(isinstance(a, ast.Call) and callee_last(a) == "PolarsData" for a in c.args):
+                continue
+            n += 1
+            node = fx.cfg.node_of(enclosing_stmt(c))
+            pc = path_condition(fx.cfg, node.id, expand=fx, keep=lambda t, nn: " in " in t and ".name" in t)
+            names, rows = pc
+            ok = not names or any(not all(r) for r in rows)
+            ctx.ob("R9", f0, "polars container: coercion of a column does not require its name to be a frame column", ok,
+                   f"reached under {show_condition(pc)}" if ok else
+                   f"coercion is applied only under {show_condition(pc)}: the name of a regex column is a pattern and never a frame column, so "
+                   "pattern-selected columns are silently not coerced (coercible data is rejected with a dtype error, uncoercible data yields no "
+                   "coercion failure cases)", f0.loc(c))
+    ctx.stats["polars_container_coercion_calls"] = n
+    if n < 1:
+        raise AnalysisError("polars container _coerce_dtype_helper: per-column coercion call not found")
+
+
 def run(ctx):
     from ..defassign import check_modules
     check_modules(ctx, "R8", ('pandera/engines/',), "escapes coercion instead of a ParserError / coerced data")
@@ -390,5 +427,6 @@ def run(ctx):
     r4_no_write(ctx)
     r5_operator_lint(ctx)
     r6_new_nulls(ctx)
+    r9_polars_container_coverage(ctx)
     r7_identity_shortcut(ctx)
     ctx.assume("astype/cast of pandas/polars return new objects")
